@@ -408,3 +408,50 @@ func vpH_C13_faultretry() {
 	vpPoolReuse(false)
 	vpReach("C13 faultretry end")
 }
+
+func init() { vpRegister("vpH_C13_bigreuse", vpH_C13_bigreuse) }
+
+// C13 on a segment with more than 1024 documents: ONE PostingsList (and one iterator)
+// recycled across terms of the same segment whose cardinalities fall into different
+// adaptive chunk-size buckets ("x" in all 1100 documents: two chunks; "r" in 3
+// documents spread over the whole range: one chunk; then "x" again), in both orders;
+// every read equals the read through fresh objects.  State that read() derives from the
+// term (chunk size, 1-hit fields, bitmap) may not survive the reuse.
+func vpH_C13_bigreuse() {
+	docs := vpBigDocs(1100, nil)
+	seg := vpBuild(docs, []uint32{1025, 1024}[vpChoice("mode", 2)])
+	seg = vpLoadedVariant(seg)
+	exp := vpBuildExpect(docs, nil)
+	d, err := seg.Dictionary("a")
+	vpMust(err, "Dictionary")
+	order := [][]string{{"x", "r", "x"}, {"r", "x", "r"}, {"x", "absent", "r"}}[vpChoice("order", 3)]
+	var pl segment.PostingsList
+	var it segment.PostingsIterator
+	for step, term := range order {
+		pl, err = d.PostingsList([]byte(term), nil, pl)
+		vpMust(err, "PostingsList (recycled)")
+		want := exp.post["a"][term]
+		vpAssert(pl.Count() == uint64(len(want)), "recycled big list: Count")
+		it, err = pl.Iterator(true, true, true, it)
+		vpMust(err, "Iterator (recycled)")
+		var out []vpXPosting
+		for {
+			p, err := it.Next()
+			vpMust(err, "Next on a recycled big list")
+			if p == nil {
+				break
+			}
+			x := vpXPosting{doc: p.Number(), freq: p.Frequency(), normBits: vpNormOf(p)}
+			for _, l := range p.Locations() {
+				x.locs = append(x.locs, vpXLoc{l.Field(), l.Pos(), l.Start(), l.End()})
+			}
+			out = append(out, x)
+			if len(out) > 5000 {
+				vpAssert(false, "postings iterator does not terminate")
+				break
+			}
+		}
+		vpPostingsMatch("recycled big list step "+string(rune('0'+step)), out, want)
+	}
+	vpReach("C13 bigreuse end")
+}
